@@ -210,7 +210,8 @@ U_ComputeEnd(st, r, inf, ni, o) == [st EXCEPT !.pc = "idle", !.info = inf, !.nit
 
 \* The user's operator throws: possible wherever the next event applies the operator.
 \* The exception unwinds to the caller; members keep whatever was written so far.
-G_OpThrows(st) == (st.pc = "init" /\ ~st.facOK) \/ st.fnext # 0 \/ st.probing
+\* (in the generalized modes compress_V also applies the user's B operator: the B-norm of the new residual, at the end of the shift loop)
+G_OpThrows(st) == (st.pc = "init" /\ ~st.facOK) \/ st.fnext # 0 \/ st.probing \/ (st.pc = "c_shift" /\ st.spos = st.ncv)
 U_OpThrows(st) ==
     [st EXCEPT !.pc = "idle", !.exc = "fault", !.fnext = 0, !.fto = 0, !.facOK = FALSE, !.inited = FALSE, !.probing = FALSE]
 
